@@ -153,7 +153,8 @@ def check(ctx):
                     ctx.violation("R-C02.2", f"climb-rec:{eff}", f"the right operand may be extended only by strictly tighter operators (`{inner} > {outer}`); found `{S.unparse(n)}` (recursion when {inner} {eff} {outer}): operators of equal precedence would associate to the right", file=px.rel,
                                   function="CParser._parse_binary_expression", line=n.lineno)
     for c in rec_calls:
-        a_ok = (len(c.args) == 2 and isinstance(c.args[0], ast.Name) and c.args[0].id == inner and isinstance(c.args[1], ast.Name))
+        pa = S.positional_args(c, fn)
+        a_ok = (pa is not None and len(pa) == 2 and isinstance(pa[0], ast.Name) and pa[0].id == inner and isinstance(pa[1], ast.Name))
         ctx.oblige("R-C02.2", "recursive call passes (next_prec, rhs)", a_ok)
         if not a_ok:
             ctx.violation("R-C02.2", "climb-rec-args", f"the recursive call must pass the tighter operator's precedence and the right operand parsed so far; found `{S.unparse(c)}`", file=px.rel, function="CParser._parse_binary_expression", line=c.lineno)
